@@ -1,7 +1,158 @@
-import Atomman.Prelude
-open Atomman
+import Atomman.C11
+open Atomman Atomman.C11 Atomman.Gen
 
-/-- stub: replaced when the C11 model is built. -/
-def handleC11 (_toks : List String) : String := err "op"
+/-! line-protocol driver of the C11 model (`K := Rat`).  Every op that starts from a 6x6 first passes it
+    through the `Cij` setter, as `ElasticConstants(Cij=c)` does.  The 6x6 inverse is the exact rational one. -/
+
+namespace C11Drv
+
+/-- exact Gauss–Jordan inverse of a 6x6 rational matrix (`none` = singular). -/
+def inv6 (v : M6 Rat) : Option (M6 Rat) := Id.run do
+  let n := 6
+  let mut a : Array (Array Rat) := Array.ofFn (n := 6) fun i =>
+    Array.ofFn (n := 12) fun j => if h : j.val < 6 then v i ⟨j.val, h⟩ else (if j.val - 6 = i.val then 1 else 0)
+  for col in [0:n] do
+    -- pivot
+    let mut piv := n
+    for r in [col:n] do
+      if piv = n ∧ (a[r]!)[col]! ≠ 0 then piv := r
+    if piv = n then return none
+    let rowp := a[piv]!
+    a := a.set! piv (a[col]!)
+    let p := rowp[col]!
+    let rowp := rowp.map (· / p)
+    a := a.set! col rowp
+    for r in [0:n] do
+      if r ≠ col then
+        let f := (a[r]!)[col]!
+        if f ≠ 0 then
+          a := a.set! r ((a[r]!).zipWith (fun x y => x - f * y) rowp)
+  let res := a
+  return some fun i j => (res[i.val]!)[j.val + 6]!
+
+def errOf (e : String) : String := err e
+
+def show6 (r : Except String (M6 Rat)) : String :=
+  match r with
+  | .ok v => "ok " ++ showRats (M6.toList v)
+  | .error e => errOf e
+
+def parseKeyed (n : Nat) (l : List String) : Option (List Rat × List String) :=
+  if l.length < n then none else
+  match parseRats? (l.take n) with
+  | some xs => some (xs, l.drop n)
+  | none => none
+
+def withC (rest : List String) (k : M6 Rat → List String → String) : String :=
+  match parseKeyed 36 rest with
+  | none => err "format"
+  | some (xs, more) =>
+    match setCij (m6 xs) with
+    | .error e => errOf e
+    | .ok c => k c more
+
+def withCS (rest : List String) (k : M6 Rat → M6 Rat → List String → String) : String :=
+  withC rest fun c more =>
+    match inv6 c with
+    | none => err "value"
+    | some s => let ts := Tab.of6 s; k c ts.get6 more
+
+end C11Drv
+open C11Drv
+
+def handleC11 (toks : List String) : String :=
+  match toks with
+  | "setcij" :: rest => withC rest fun c _ => "ok " ++ showRats (M6.toList c)
+  | "cij9" :: rest => withC rest fun c _ => showRats (M9.toList (cij9Get c))
+  | "cijkl" :: rest => withC rest fun c _ => showRats (T4.toList (cijklGet c))
+  | "sij" :: rest => withCS rest fun _ s _ => showRats (M6.toList s)
+  | "sijkl" :: rest => withCS rest fun _ s _ => showRats (T4.toList (sijklGet s))
+  | "setcij9" :: rest =>
+    match parseRats? rest with
+    | some xs => if xs.length ≠ 81 then err "format" else show6 (setCij9 (m9 xs))
+    | none => err "format"
+  | "setcijkl" :: rest =>
+    match parseRats? rest with
+    | some xs => if xs.length ≠ 81 then err "format" else show6 (setCijkl (t4 xs))
+    | none => err "format"
+  | "setsijkl" :: rest =>
+    match parseRats? rest with
+    | some xs => if xs.length ≠ 81 then err "format" else show6 (setSijkl inv6 (t4 xs))
+    | none => err "format"
+  | "sijklraw" :: rest =>
+    match parseRats? rest with
+    | some xs => if xs.length ≠ 81 then err "format" else showRats (M6.toList (sijklSetRaw (t4 xs)))
+    | none => err "format"
+  | "setsij" :: rest =>
+    match parseRats? rest with
+    | some xs => if xs.length ≠ 36 then err "format" else show6 (setSij inv6 (m6 xs))
+    | none => err "format"
+  | "transform" :: rest =>
+    -- 36 c, 9 axes, 3 norms, optional tol
+    withC rest fun c more =>
+      match parseRats? more with
+      | some xs =>
+        if xs.length ≠ 12 ∧ xs.length ≠ 13 then err "format" else
+        let axes : M33 Rat := m33 (xs.take 9)
+        let nl := (xs.drop 9).take 3
+        let norms : Fin 3 → Rat := fun i => nl.getD i.val 1
+        let tol := if xs.length = 13 then xs.getD 12 0 else transformTol
+        show6 (transform tol axes norms c)
+      | none => err "format"
+  | "rot" :: rest =>
+    -- raw tensor rotation of an arbitrary 6x6 (no setter, no clean-up): 36 c, 9 T -> 81
+    match parseRats? rest with
+    | some xs =>
+      if xs.length ≠ 45 then err "format" else
+      showRats (T4.toList (rot (m33 (xs.drop 36)) (cijklGet (m6 (xs.take 36)))))
+    | none => err "format"
+  | "radicands" :: keys :: rest =>
+    match parseRats? rest with
+    | some xs => match isoRadicands keys xs with
+      | some l => "ok " ++ showRats l
+      | none => err "op"
+    | none => err "format"
+  | "ctor" :: keys :: nv :: rest =>
+    match nv.toNat?, parseRats? rest with
+    | some n, some xs =>
+      if xs.length < n then err "format" else
+      match construct keys (xs.take n) (xs.drop n) with
+      | none => err "op"
+      | some r => show6 r
+    | _, _ => err "format"
+  | "normalized" :: sys :: rest =>
+    withC rest fun c _ =>
+      if sys = "isotropic" then
+        match inv6 c with
+        | none => err "value"
+        | some s => let ts := Tab.of6 s; show6 (normalizedAs sys c ts.get6)
+      else show6 (normalizedAs sys c c)
+  | "isnormal" :: sys :: rest =>
+    withC rest fun c more =>
+      match parseRats? more with
+      | some [rt, at'] =>
+        let s := if sys = "isotropic" then inv6 c else some c
+        match s with
+        | none => err "value"
+        | some s => let ts := Tab.of6 s; match isNormal rt at' sys c ts.get6 with
+          | .ok b => showBool b
+          | .error e => errOf e
+      | _ => err "format"
+  | "estimate" :: which :: style :: rest =>
+    withC rest fun c _ =>
+      let needS := style ≠ "Voigt"
+      match (if needS then inv6 c else some c) with
+      | none => err "value"
+      | some s =>
+        let ts := Tab.of6 s
+        let s := ts.get6
+        if which = "bulk" then
+          if style = "Hill" then showRat (bulkHill c s) else if style = "Voigt" then showRat (bulkVoigt c)
+          else if style = "Reuss" then showRat (bulkReuss s) else err "value"
+        else if which = "shear" then
+          if style = "Hill" then showRat (shearHill c s) else if style = "Voigt" then showRat (shearVoigt c)
+          else if style = "Reuss" then showRat (shearReuss s) else err "value"
+        else err "op"
+  | _ => err "op"
 
 def main : IO Unit := runDriver handleC11
